@@ -344,6 +344,27 @@ func init() {
 				}
 			}
 		}
+		// every padded layout of DATA / HEADERS / PUSH_PROMISE around the pad-length and priority boundaries
+		for _, tf := range [][2]int{{0, 0x08}, {0, 0x09}, {1, 0x08}, {1, 0x28}, {1, 0x2c}, {1, 0x2d}, {1, 0x0c}, {1, 0x24}, {5, 0x08}, {5, 0x0c}} {
+			for _, n := range []int{0, 1, 2, 4, 5, 6, 7, 8, 12, 17} {
+				for _, pad := range []int{0, 1, n - 7, n - 6, n - 5, n - 4, n - 2, n - 1, n, n + 1, 255} {
+					if pad < 0 || pad > 255 {
+						continue
+					}
+					payload := make([]byte, n)
+					for k := range payload {
+						payload[k] = byte(0x80 + k)
+					}
+					if n > 0 {
+						payload[0] = byte(pad)
+					}
+					c.tag("read:padded-layout")
+					raw := fmt.Sprintf("%d %d 1 %s", tf[0], tf[1], hx(payload))
+					c.op("fwr RAW " + raw)
+					c.op("frdspec " + raw)
+				}
+			}
+		}
 		for i := 0; i < c.count; i++ {
 			r := c.rng.fork()
 			sid := sids[r.intn(len(sids))]
